@@ -225,8 +225,14 @@ private:
     // guarantee this - it may return the same outdated value again - so we have to look at the flags as well;
     // otherwise tail could end up with a stamp that has the NotInList flag set, and all subsequent remove
     // operations would wrongly conclude that their block has already been removed.
+    // The loads above (and the re-check of tail->next) may all return outdated values, e.g. a prev pointer from a time
+    // when last was tail's direct predecessor (e.g. before last was removed and inserted again). Therefore last->prev is
+    // validated with a read-modify-write operation, which always observes the latest value: if it (still) refers
+    // to tail and is not marked, last is part of the list and no block with a smaller stamp can be in the list.
+    auto expected_prev = last_prev;
     if (last_stamp > stamp && (last_stamp & (NotInList | PendingPush)) == 0 && last_prev.get() == tail &&
-        tail->next.load(std::memory_order_relaxed) == last) {
+        (last_prev.mark() & DeleteMark) == 0 && tail->next.load(std::memory_order_relaxed) == last &&
+        last->prev.compare_exchange_strong(expected_prev, last_prev, std::memory_order_relaxed)) {
       assert((last_stamp & PendingPush) == 0);
       assert((last_stamp & NotInList) == 0);
       assert(last_stamp >= stamp);
